@@ -244,6 +244,8 @@ FocusT(nt) ==
     [] nt = "FD_CS" -> << Tmpl("CreateChangeStream", <<T("CREATE"), KW("CHANGE"), KW("STREAM"), N("Name", "DdlId"),
                              OPEN("ChangeStreamForTables", "For"), T("FOR"), LOPEN("Tables"), N0("", "ChangeStreamForTable"), T(","), N0("", "ChangeStreamForTable"),
                              OPT(<<T(","), N0("", "ChangeStreamForTable")>>), LCLOSE, CLOSE, O("Options", "Options")>>) >>
+    [] nt = "QS_Table" -> << Tmpl("QueryStatement", <<OPEN("Select", "Query"), T("SELECT"), L("Results", "SelectItem", ",", 1),
+                                OPEN("From", "From"), T("FROM"), N0("Source", "SimpleTableFull"), CLOSE, CLOSE>>) >>
     [] nt = "FM_Return" -> << Tmpl("Delete", <<KW("DELETE"), T("FROM"), N("TableName", "DmlTablePath"), N("Where", "Where"),
                                 OPEN("ThenReturn", "ThenReturn"), T("THEN"), KW("RETURN"), OPEN("WithAction", "WithAction"), T("WITH"), KW("ACTION"), O("Alias", "AsAliasReq2"), CLOSE,
                                 L("Items", "ReturnItem", ",", 1), CLOSE>>) >>
